@@ -70,7 +70,7 @@ def genhistCase (id : String) (payload : List Sexp) : List String :=
   let aioName := (atoms (p.field? "aio")).headD "t.shootnew.go"
   let parse (k : String) : Option (List NType) := ((p.field? k).map Sexp.args |>.getD []).mapM parseNType
   if (atoms (p.field? "cmd")).headD "new" != "new" then
-    -- map / enum / rest never read generated files back (C07_fixpoint_partial): every history gives the same run
+    -- map / enum / rest never read generated files back (C07_disk_irrelevant): every history gives the same run
     let all := [("repeat", "true"), ("stale", "true")] ++ (if aio then [] else [("back", "true"), ("back-aio", "true")])
     both id all all "WF"
   else
